@@ -7,6 +7,7 @@ CONSTANTS
   Dev = "netself"
 VIEW view
 INVARIANT PlainPureInv
+INVARIANT PlainReturnsNewObjectInv
 INVARIANT SharersUntouchedInv
 INVARIANT ArraysUntouchedInv
 INVARIANT PlainIsInplaceOnCopyInv
